@@ -13,12 +13,12 @@ def q(s):
     return '"%s"' % s
 
 
-def consts(objs, maxsp, depth, eoc, acts, dev, vals=(0, 1), keys=(1, 2)):
+def consts(objs, maxsp, depth, eoc, acts, dev, vals=(0, 1), keys=(1, 2), start="empty"):
     return {
         "Objs": "{" + ", ".join(q("o%d" % i) for i in range(1, objs + 1)) + "}",
         "Keys": "{" + ", ".join(str(k) for k in keys) + "}",
         "Vals": "{" + ", ".join(str(k) for k in vals) + "}",
-        "MaxSp": maxsp, "MaxDepth": depth, "Eoc": bool(eoc),
+        "MaxSp": maxsp, "MaxDepth": depth, "Eoc": bool(eoc), "Start": q(start),
         "Acts": "{" + ", ".join(q(a) for a in acts) + "}",
         "Dev": "{" + ", ".join(q(a) for a in sorted(dev)) + "}",
     }
@@ -214,7 +214,7 @@ def run_property(chk, pid, P):
 
     # --- abstract layer: the property's invariants on the ideal mechanism (must hold) and on ideal + one deviation at a time
     for c in P["cfgs"]:
-        cs = consts(c["objs"], c["maxsp"], c["ideal_depth"], c["eoc"], c["acts"], [], vals=c.get("vals", (0, 1)))
+        cs = consts(c["objs"], c["maxsp"], c["ideal_depth"], c["eoc"], c["acts"], [], vals=c.get("vals", (0, 1)), start=c.get("start", "empty"))
         jobs.append(("ideal", c["name"], None, pool.submit(
             tlc.run, SPEC, mk_cfg(cs, P["abs_invs"] + P["mech_invs"], P["abs_props"] + P["mech_props"]), wd("ideal"),
             workers=max(2, tlc.NPROC // 4), timeout=1500, keep_stdout=True, heap="4g")))
@@ -227,7 +227,7 @@ def run_property(chk, pid, P):
 
     # --- mechanism layer: graph with the deviations the code shows, every edge replayed
     for c in P["cfgs"]:
-        cs = consts(c["objs"], c["maxsp"], c["depth"], c["eoc"], c["acts"], dev_real & known_devs, vals=c.get("vals", (0, 1)))
+        cs = consts(c["objs"], c["maxsp"], c["depth"], c["eoc"], c["acts"], dev_real & known_devs, vals=c.get("vals", (0, 1)), start=c.get("start", "empty"))
         tg = time.time()
         g = graph.dump(SPEC, mk_cfg(cs, P["mech_invs"], P["mech_props"], emit=True), wd("graph"), timeout=3000, heap="6g")
         r = g.tlc
